@@ -668,11 +668,42 @@ for _s in SHAPES_C01:
     history_unit(_s, _DEPTH)
 
 
+
+@unit("C01.set_seed", "C01", [f"{M}::Model.set_seed", f"{N}::Value.value.fset", f"{M}::Model.update", f"{M}::GraphBuilder._add_model_seed_nodes"],
+      assumptions=["graph: a ~ value; eps = f_seeded(a, seed) (needs a seed); z = f_z(eps); A-RNG: split(key, n) gives n children"])
+def u_set_seed(ip):
+    """Model.set_seed is a value assignment like any other: with auto-update on, every node is up to date afterwards and the seeded node and what
+    depends on it hold the values computed from the NEW seed; with auto-update off they report outdated until the next update, which recomputes them."""
+    c = ip.ctx
+    install_graph_models(ip)
+    ip.models["jax.random.split"] = lambda ip_, key, num=2: [ip_.uf("split", ip_.to_U(key), z3.IntVal(i)) for i in range(ip_.conc_int(num))]
+    for auto in (True, False):
+        g = G(ip)
+        a = g.var("a")
+        eps = g.calc("f_seeded", a, name="eps", _needs_seed=True)
+        z = g.calc("f_z", eps, name="z")
+        m = g.build(z)
+        if not auto:
+            ip.setattr(m, "auto_update", False)
+        key = z3.Const("new_key", U)
+        ip.call(method(ip, m, "set_seed"), [key], {})
+        child = ip.uf("split", key, z3.IntVal(0))
+        nd = m.f["_nodes"]
+        tag = ".auto_on" if auto else ".auto_off"
+        c.oblige("seed_node_holds_the_child_key" + tag, ip.to_U(ip.getattr(nd["_model_eps_seed"], "value")).eq(child))
+        if not auto:
+            c.oblige("dependents_report_outdated_until_updated" + tag, ip.truth(ip.getattr(nd["eps"], "outdated")) is True and ip.truth(ip.getattr(nd["z"], "outdated")) is True)
+            ip.call(method(ip, m, "update"), [], {})
+        want_eps = [t for t in [ip.to_U(ip.getattr(nd["eps"], "value"))]][0]
+        c.oblige("nothing_outdated_afterwards" + tag, not any(ip.truth(ip.getattr(n_, "outdated")) is True for n_ in nd.values()))
+        c.oblige("seeded_node_recomputed_from_the_new_seed" + tag, "new_key" in str(want_eps) and "f_seeded" in str(want_eps))
+        c.oblige("dependent_recomputed_from_the_new_seeded_value" + tag, ip.to_U(ip.getattr(nd["z"], "value")).eq(ip.uf("f_z", want_eps)))
+
 # ------------------------------------------------------------------------------------------------------------------------------------
 # the per-function contracts of the caching protocol - flagging, the value setter, node updates, the outdated / state properties, the order of
 # full and targeted model updates, the ancestor closure - carry every property whose statement speaks about values "after updating":
 # registered again under those properties
-CACHE_CORE = ["C01.flag_outdated", "C01.value_setter", "C01.node_update", "C01.outdated_property", "C01.recursive_inputs", "C01.model_update.n2", "C01.model_update.n3",
+CACHE_CORE = ["C01.set_seed", "C01.flag_outdated", "C01.value_setter", "C01.node_update", "C01.outdated_property", "C01.recursive_inputs", "C01.model_update.n2", "C01.model_update.n3",
               "C01.failed_assignment"]
 
 
